@@ -399,7 +399,7 @@ func checkC14(c c14Case, ctx *vCtx) *vFailure {
 	r1, e1 := vReadCSV(c1.Stdout)
 	r2, e2 := vReadCSV(c2.Stdout)
 	if e1 != nil || e2 != nil {
-		vFault("C14: csv unreadable: %v %v", e1, e2)
+		vViolate("C14: csv log of the log or of the printed log is not readable CSV: %v %v", e1, e2)
 	}
 	if len(r1) != len(r2) {
 		return vFailf("csv log of the printed log has %d rows, the original %d", len(r2), len(r1))
@@ -422,9 +422,11 @@ func checkC14(c c14Case, ctx *vCtx) *vFailure {
 	return nil
 }
 
-var c14Layouts = []string{"", "", "2006-01-02", "02.01.2006", "02/01/2006", "2 Jan 2006", "20060102", "2006-01-02 15:04", "2006-01-02 15:04 -0700", "2006/1/2", "January 2, 2006", "Mon 2 Jan 2006", "2006-01", "Jan 2006", "2006"}
+var c14Layouts = []string{"", "", "2006-01-02", "02.01.2006", "02/01/2006", "2 Jan 2006", "20060102", "2006-01-02 15:04", "2006-01-02 15:04 -0700", "2006/1/2", "January 2, 2006", "Mon 2 Jan 2006", "2006-01", "Jan 2006", "2006", "2006-01-02T15:04", "2006-01-02T15:04:05Z07:00", "Jan 2 2006 3:04PM"}
 
-func c14Partial(layout string) bool { return layout == "2006-01" || layout == "Jan 2006" || layout == "2006" }
+func c14Partial(layout string) bool {
+	return layout == "2006-01" || layout == "Jan 2006" || layout == "2006"
+}
 
 func genC14(t *rapid.T) c14Case {
 	layout := c14Layouts[rapid.IntRange(0, len(c14Layouts)-1).Draw(t, "layout")]
